@@ -254,6 +254,10 @@ def generate(seed: int, run: int, tier: str) -> dict:
         n_sw = rng.choice([1, 3, 8, 20, 60])
         ops.append({"op": "concurrent", "asts": conc, "switch": sorted(rng.sample(range(1, rng.choice([60, 300, 1500])), min(n_sw, 50)))})
     env = {"hashseed": rng.choice([0, 1, 7, 42]), "cache": rng.choice([1000, 1000, 1000, 25])}
+    if rng.random() < 0.12:
+        # environment fault: SymPy's cache switched off for the whole process (SYMPY_USE_CACHE=no), so
+        # nothing the library does may rely on two constructions returning one object
+        env = {"hashseed": env["hashseed"], "cache": 1000, "environ": {"SYMPY_USE_CACHE": "no"}}
     return {"prop": PROP, "seed": seed, "run": run, "env": env, "timeout": 120, "idseed": rng.getrandbits(48), "reuse_ids": rng.random() < 0.4, "ops": ops}
 
 
@@ -269,6 +273,12 @@ def systematic_jobs(tier: str, seed: int, ctx) -> list[dict]:
 # ============================================================================ child side
 
 _STATE = {}
+
+
+def _cache_really_off() -> bool:
+    """The environment fault fired only if SymPy itself reports that it runs without its cache."""
+    from sympy.core import cache as sc  # pylint: disable=import-outside-toplevel
+    return getattr(sc, "USE_CACHE", "yes") == "no" and getattr(sc.cacheit, "__name__", "") == "__cacheit_nocache"
 
 
 def zygote_init() -> None:
@@ -1327,6 +1337,8 @@ def child_run(job: dict) -> dict:
         if violation:
             break
     faults["address_reused"] = ids.reused
+    if _cache_really_off():
+        faults["sympy_cache_off_run"] = 1
     fired = faults["clear_cache"] + faults["evict_mid_op"] + faults["bump"] + (1 if faults["epoch"] > 1 else 0)
     return {
         "events": events,
